@@ -824,6 +824,8 @@ func (runInfo *runInfoStruct) runDeferStmt(stmt *ast.DeferStmt) {
 	if runInfo.err != nil {
 		return
 	}
+	// the arguments are the values read now, not the elements they were read from
+	holdArgs(args, isRunVMFunction)
 
 	runInfo.defers = append(runInfo.defers, capturedFunc{
 		fn:        f,
